@@ -135,12 +135,20 @@ class ESpec:
     tags: List[str] = field(default_factory=list)  # free-form labels for the distribution table
     extra: dict = field(default_factory=dict)
 
+    def repr_attrs(self):
+        """the #[repr(..)] attributes as written: a list (one entry per attribute) of lists of hints"""
+        if self.extra.get('repr_attrs'):
+            return [list(a) for a in self.extra['repr_attrs']]
+        if self.extra.get('repr_raw'):
+            return [[h.strip() for h in self.extra['repr_raw'].split(',')]]
+        return [[self.repr]] if self.repr else []
+
     def model_lines(self):
         b = lambda x: '1' if x else '0'
-        out = ['enum %s name=%s style=%s ci=%s prefix=%s phf=%s err=%s repr=%s cis=%s dname=%s dvis=%d reprraw=%s'
+        ra = '/'.join('+'.join(h.replace('(', '').replace(')', '') for h in a) for a in self.repr_attrs()) or '-'
+        out = ['enum %s name=%s style=%s ci=%s prefix=%s phf=%s err=%s repr=%s cis=%s dname=%s dvis=%d reprattrs=%s'
                % (self.id, hx(self.name), self.style or '-', b(self.ci), opt(self.prefix), b(self.phf), b(self.err),
-                  self.repr or '-', b(self.cis), opt(self.extra.get('dname')), self.extra.get('dvis', 0),
-                  opt(self.extra.get('repr_raw') or self.repr))]
+                  self.repr or '-', b(self.cis), opt(self.extra.get('dname')), self.extra.get('dvis', 0), ra)]
         for v in self.variants:
             out.append(v.model_line(self.id))
         return out
